@@ -1071,8 +1071,13 @@ def analyze(repo):
                         raise Unsupported("translator: %s is called with partially overlapping arguments %s at %s and the "
                                           "no-alias semantics is not valid for it (%s)" % (name, pat["pairs"], pat["sites"], pat["why"]))
                     names = [p[1] for p in fn.params]
-                    unify = {names[i]: (names[j],) for i, j, _ in pat["pairs"]}
-                    # written parameter must be the representative
+                    # the representative of an alias class is the writable (non-const) parameter
+                    unify = {}
+                    for i, j, _ in pat["pairs"]:
+                        if fn.params[j][3] and not fn.params[i][3]:
+                            unify[names[j]] = (names[i],)
+                        else:
+                            unify[names[i]] = (names[j],)
                     f2 = W.load_fn(name, W.all_files)
                     r = Translator(W, f2, unify=unify)
                     res = r.run() if not any(s[0] == "for" for s in f2.body) else None
